@@ -407,7 +407,14 @@ def main(argv):
     seed = int(os.environ.get("VERIF_SEED", "1") or "1")
 
     if argv[1] == "--replay":
-        os.environ.setdefault("PYTHONHASHSEED", "0")
+        try:
+            hs = str(json.load(open(argv[2])).get("hashseed") or "0")
+        except Exception:
+            hs = "0"
+        if os.environ.get("PYTHONHASHSEED") != hs:
+            env = dict(os.environ)
+            env["PYTHONHASHSEED"] = hs
+            os.execve(sys.executable, [sys.executable, os.path.join(ROOT, "bin", "check.py")] + list(argv), env)
         return replay(pid, argv[2])
 
     tier = argv[1]
@@ -470,6 +477,7 @@ def main(argv):
                 merged.samples.append(smp)
         if s["violation"] and merged.violation is None:
             merged.violation = tuple(s["violation"])
+            merged.violation_hashseed = data.get("hashseed")
     shutil.rmtree(outdir, ignore_errors=True)
 
     wall = time.time() - t0
@@ -519,7 +527,8 @@ def main(argv):
         os.makedirs(d, exist_ok=True)
         path = os.path.join(d, case_hash(case)[:12] + ".json")
         with open(path, "w") as f:
-            json.dump({"property": pid, "seed": seed, "tier": tier, "message": msg, "case": case}, f, indent=1)
+            json.dump({"property": pid, "seed": seed, "tier": tier, "message": msg,
+                       "hashseed": getattr(merged, "violation_hashseed", None), "case": case}, f, indent=1)
         print("message: %s" % msg[:2000])
         print("VIOLATION property=%s replay=%s" % (pid, path))
         return 1
